@@ -85,7 +85,7 @@ func Run(c *core.Ctx) int {
 	c.Count("sample_lines_compared", samples)
 
 	// level 2: prelude helpers against BigInt
-	nr := c.N(20000, 400000)
+	nr := c.N(20000, 200000)
 	r := core.Exec(c.Verif, core.BaseEnv(), 20*time.Minute, "", "node", filepath.Join(c.Verif, "js", "prelude_bigint.js"), c.Repo, fmt.Sprint(c.Seed), fmt.Sprint(nr))
 	var l2 struct {
 		Tested     int            `json:"tested"`
